@@ -64,7 +64,9 @@ func writeEvidence(p *Plan, agg *Agg, recs []*violRec, validated, mismatches, nV
 	for k, v := range agg.Stats.Sites {
 		sites = append(sites, site{k, v})
 	}
-	sort.Slice(sites, func(i, j int) bool { return sites[i].N > sites[j].N || (sites[i].N == sites[j].N && sites[i].Pos < sites[j].Pos) })
+	sort.Slice(sites, func(i, j int) bool {
+		return sites[i].N > sites[j].N || (sites[i].N == sites[j].N && sites[i].Pos < sites[j].Pos)
+	})
 	if len(sites) > 60 {
 		sites = sites[:60]
 	}
@@ -93,22 +95,22 @@ func writeEvidence(p *Plan, agg *Agg, recs []*violRec, validated, mismatches, nV
 		"explanation": "states = completed symbolic execution paths of the real code (each stands for every input that drives the code through the same decisions); " +
 			"transitions = symbolic decisions taken; every harness assertion and every Go panic condition on each path was discharged by z3 (or by the exact byte-domain filter) " +
 			"over all inputs of that path; traces_validated = sampled path models re-run in the natively compiled code with byte-identical observations",
-		"bounds":                  p.Bounds,
-		"rule":                    p.Rule,
-		"complete":                complete,
-		"incomplete_reasons":      agg.Incomplete,
-		"unexplored_work_items":   agg.Leftover,
-		"jobs":                    len(p.Jobs),
+		"bounds":                   p.Bounds,
+		"rule":                     p.Rule,
+		"complete":                 complete,
+		"incomplete_reasons":       agg.Incomplete,
+		"unexplored_work_items":    agg.Leftover,
+		"jobs":                     len(p.Jobs),
 		"concrete_validation_runs": len(p.Concrete),
-		"infeasible_paths":        agg.Stats.Infeasible,
+		"infeasible_paths":         agg.Stats.Infeasible,
 		"queries": map[string]int{"sat": agg.Stats.Sat, "unsat": agg.Stats.Unsat, "unknown": agg.Stats.Unknown,
 			"prefilter_decided": agg.Stats.Prefilter, "prefilter_crosschecked": agg.Stats.PrefilterChecked, "cached": agg.Stats.Cached},
-		"assertions_discharged":     agg.Stats.Asserts,
-		"solver_s":                  float64(agg.Stats.SolverNs) / 1e9,
-		"interp_s":                  float64(agg.Stats.InterpNs) / 1e9,
-		"ssa_instructions":          agg.Stats.Instrs,
-		"max_decision_depth":        agg.Stats.MaxDepth,
-		"vacuity_reach":             agg.Stats.Reach,
+		"assertions_discharged":             agg.Stats.Asserts,
+		"solver_s":                          float64(agg.Stats.SolverNs) / 1e9,
+		"interp_s":                          float64(agg.Stats.InterpNs) / 1e9,
+		"ssa_instructions":                  agg.Stats.Instrs,
+		"max_decision_depth":                agg.Stats.MaxDepth,
+		"vacuity_reach":                     agg.Stats.Reach,
 		"functions_with_symbolic_decisions": funcs,
 		"goldmark_functions_executed":       execFuncs,
 		"symbolic_branch_sites":             sites,
